@@ -73,11 +73,11 @@ T = {
 ADD = {
  "C01": " Producer -> consumer chains for every register-writing mnemonic; boundary memory words in every seed's slice.",
  "C02": " Producer -> consumer chains, faulting instructions with independent neighbours.",
- "C03": " Alphabets contain reset(), alias spellings of one address (a, a +- 2^32) and, in the 'wordz' configurations, stores of 0 over a sparsely preloaded backing store; the state key keeps zero / non-zero of the counters and is taken before the oracle observes.",
- "C04": " Plus: label names that are mnemonics, all sequences of by-name pseudo-instructions, programs that fill the instruction memory exactly, and differentials between FRESH interpreters (the same text assembled after the TOY assembler / other simulations were active vs. in a pristine interpreter).",
+ "C03": " Alphabets contain reset(), alias spellings of one address (a, a +- 2^32) and, in the 'wordz' configurations, stores of 0 over a sparsely preloaded backing store; the state key keeps zero / non-zero of the counters and is taken before the oracle observes. Declared-data clause: data segments with every declaration kind loaded element by element under 9 cache configurations, cached vs. uncached.",
+ "C04": " Plus: label names that are mnemonics, all sequences of by-name pseudo-instructions, programs that fill the instruction memory exactly (with branches to labels at both ends of their reach), by-name elements on another 4 KiB page than their array, and differentials between FRESH interpreters (the same text assembled after the TOY assembler / other simulations were active vs. in a pristine interpreter).",
  "C05": " Rotations: data-cache configurations, data memories whose valid range starts elsewhere, loads over an earlier program and again after a rejected one.",
  "C06": " Every program is driven by whole steps, single cycles, explicit half cycles and in alternation with a second independent simulation; fresh-interpreter differentials (run after machines of another size / the other ISA were active).",
- "C09": " Preload clause (load_program leaves counters and cycles untouched, first counted access is a cold miss); reload clause (load X; k steps; load Y; run: d(cycles) = uncached + penalty x misses in each phase); statistics calls as BFS operations.",
+ "C09": " Preload clause (load_program leaves counters and cycles untouched, first counted access is a cold miss); reload clause (load X; k steps; load Y; run: d(cycles) = uncached + penalty x misses in each phase); statistics and cache-table calls as BFS operations; programs with an ecall are also run with print-string registers preset.",
  "C10": " Plus every history up to length 4-5 (7) over the operations of TWO policy objects side by side (all pairs of kind and size), each history on freshly executed class definitions; the observers are BFS operations.",
  "C11": " Programs filling the instruction memory; reload histories incl. a rejected program; histories in which the statistics are asked for at two points only (all k, j).",
  "C12": " The backing store is read word by word from the backing Memory object; both tables are compared with it; table calls are BFS operations ('wordz' configurations with stores of 0 and equal values over a sparse preload).",
@@ -85,7 +85,7 @@ ADD = {
  "C16": " The baseline is observed by one separate run per inspection function; probes in the deviation step, one step later and at the end; corpus programs with a script of later loads; inspected vs. uninspected runs in separate fresh interpreters, observed after every step.",
  "C17": " Table histories (writes, reads, resets, table calls) on uncached and cached simulations (table vs. the backing store's own cells); every word in the TOY instruction register.",
  "C18": " Operations include reset(), 'a simulation of the other architecture is created next to this memory', and 'the owning simulation loads a rejected program, then one without data'; the public cell table is compared after every transition and the first observation pins old-or-new cells.",
- "C19": " The assembler space is repeated on simulations with other memory sizes; fresh-interpreter differentials (after a machine of another size / the RISC-V assembler / an earlier program with the same names).",
+ "C19": " The assembler space is repeated on simulations with other memory sizes; every split of a small memory into instructions + data (exact fit); fresh-interpreter differentials (after a machine of another size / the RISC-V assembler / an earlier program with the same names).",
  "C13": " Every configuration is explored twice: plainly and with every inspection function called after every operation.",
  "C15": " Replacement alphabet includes non-ASCII digits, letters that match mnemonics only through unicode case folding, string literals above U+00FF.",
 }
